@@ -115,5 +115,5 @@ Proof. vm_compute. exact I. Qed.
 Theorem C06_gate_refuses_substring_past_the_end :
   refutes spstr_past_end 80 /\
   nanoc {| front_ok := true; later_ok := true |} 80 spstr_past_end [] = NExit 1 false [RTesting 4%N [] false; RFailed 4%N 1; RShadowTestsFailed] [2%N].
-Proof. split; [exact refuted_substring_past_end | vm_compute; reflexivity]. Qed.
+Proof. exact gate_refuses_substring_past_end. Qed.
 Print Assumptions C06_gate_refuses_substring_past_the_end.
